@@ -539,13 +539,27 @@ class SN:
         return k
 
     def __int__(self):
+        if getattr(CTX, 'index_range', None) is not None and self.is_int:
+            return self.__index__()
         raise Unsupported('int() of a symbolic value reached CPython (module not patched?)')
 
     def __float__(self):
         raise Unsupported('float() of a symbolic value reached CPython')
 
     def __index__(self):
-        raise Unsupported('symbolic value used as an index')
+        # concretise by bounded case split: the harness states the admissible range in CTX.index_range
+        rng = getattr(CTX, 'index_range', None)
+        if rng is None:
+            raise Unsupported('symbolic value used as an index')
+        e = self.e if self.is_int else None
+        if e is None:
+            if not CTX.decide(self.e == z3.ToReal(z3.ToInt(self.e))):
+                raise Unsupported('non-integral symbolic value used as an index')
+            e = z3.ToInt(self.e)
+        for k in range(rng[0], rng[1] + 1):
+            if CTX.decide(e == k):
+                return k
+        raise Unsupported('symbolic index outside the stated range %s' % (rng,))
 
     # ---- numpy ufunc method protocol (object-dtype loops call these)
     def radians(self):
